@@ -552,6 +552,8 @@ HEADER = """(* ThreadImpl.v — GENERATED by tr/atomics.py on every run of ./che
      IfUnset [body]                  `if (reg == -1) { body }`
      CallRandom ; RetryIfUnset       `while ((fresh = json_c_get_random_seed()) == -1) {}`
      CAS c e                         __sync_val_compare_and_swap(&c, e, fresh), result unused
+     CASOnce c d                     __sync_{val,bool}_compare_and_swap(&c, reg, reg + d), result
+                                     ignored and not retried (the update is lost when it fails)
      StoreFresh c                    c = fresh   (plain write)
      ReadForHash Shared | Local      value handed to hashlittle: the shared seed variable
                                      re-read | the function's local copy
@@ -575,38 +577,82 @@ def coq_ops(ops, node):
     return "[" + "; ".join(out) + "]"
 
 
-def render(getp, putp, seedp, defs):
+REFERENCE = dict(
+    get=(["AtomicAdd RC 1"], []),
+    put=(["AtomicSubFetch RC 1", "Branch"], []),
+    seed=(["Load Seed", "IfUnset [CallRandom; RetryIfUnset; CAS Seed (-1)]", "ReadForHash Shared"], []),
+)
+
+
+def render(getp, putp, seedp, defs, failed=()):
+    """failed: names among get/put/seed whose program is a PLACEHOLDER (reference shape)"""
     ex = []
-    for title, shown in (("json_object_get", getp[1]), ("json_object_put", putp[1]), ("lh_char_hash", seedp[1])):
+    for key, title, shown in (("get", "json_object_get", getp[1]), ("put", "json_object_put", putp[1]),
+                              ("seed", "lh_char_hash", seedp[1])):
         ex.append("     %s:" % title)
+        if key in failed:
+            ex.append("       NOT RECOGNISED - the definition below is a PLACEHOLDER (the reference shape), see ThreadImplCheck.v")
         for l in shown:
             ex.append("       " + l.replace("(*", "( *").replace("*)", "* )"))
     s = HEADER % dict(defs=" ".join(defs), excerpt="\n".join(ex))
-    s += "Definition get_prog (n : nat) : list mop := %s.\n\n" % coq_ops(getp[0], "n")
-    s += "Definition put_prog (n : nat) : list mop := %s.\n\n" % coq_ops(putp[0], "n")
-    s += "Definition seed_prog : list mop := %s.\n\n" % ("[" + "; ".join(seedp[0]) + "]")
+    mark = lambda k: "(* PLACEHOLDER: source shape not recognised *) " if k in failed else ""
+    s += "Definition get_prog (n : nat) : list mop := %s%s.\n\n" % (mark("get"), coq_ops(getp[0], "n"))
+    s += "Definition put_prog (n : nat) : list mop := %s%s.\n\n" % (mark("put"), coq_ops(putp[0], "n"))
+    s += "Definition seed_prog : list mop := %s%s.\n\n" % (mark("seed"), "[" + "; ".join(seedp[0]) + "]")
     s += "Definition impl : impl_t := mkImpl get_prog put_prog seed_prog.\n"
     return s
 
 
-def render_failure(reason):
-    ident = "translator_failed__" + re.sub(r"[^A-Za-z0-9]+", "_", reason)[:150].strip("_")
-    return ("(* ThreadImpl.v — GENERATED by tr/atomics.py.  TRANSLATION FAILED:\n   %s\n"
+def render_check(reasons):
+    """ThreadImplCheck.v: compiles iff every function was recognised"""
+    if not reasons:
+        return ("(* ThreadImplCheck.v - GENERATED by tr/atomics.py on every run of ./check C18.  DO NOT EDIT.\n"
+                "   Translation status: every function was recognised; ThreadImpl.v is the translation. *)\n"
+                "From JC Require Import Base ThreadModel ThreadImpl.\n"
+                "Definition translation_recognised : impl_t := ThreadImpl.impl.\n")
+    txt = "\n   ".join(r.replace("(*", "( *").replace("*)", "* )") for r in reasons)
+    ident = "translator_failed__" + re.sub(r"[^A-Za-z0-9]+", "_", reasons[0])[:150].strip("_")
+    return ("(* ThreadImplCheck.v - GENERATED by tr/atomics.py.  TRANSLATION FAILED:\n   %s\n"
             "   The source no longer has a shape the translator recognises: the correspondence between\n"
-            "   the threaded implementation and the model is broken.  This file does not compile on purpose. *)\n"
-            "From JC Require Import Base ThreadModel.\n"
-            "Definition impl : impl_t := %s.\n") % (reason.replace("(*", "( *").replace("*)", "* )"), ident)
+            "   the threaded implementation and the model is broken, the theorems of Properties_C18.v\n"
+            "   (which depends on this file) are NOT established for this source.  This file does not\n"
+            "   compile on purpose.  (ThreadImpl.v carries marked placeholders so that the model driver\n"
+            "   and the runtime stream still build and run.) *)\n"
+            "From JC Require Import Base ThreadModel ThreadImpl.\n"
+            "Definition translation_recognised : impl_t := %s.\n") % (txt, ident)
 
 
 def translate(repo, cfg, defines):
-    jo = preprocess(repo, cfg, "json_object.c", defines)
-    lh = preprocess(repo, cfg, "linkhash.c", defines)
-    check_rc_sites(jo)
-    check_seed_default(lh)
-    getp = translate_get(find_function(jo, "json_object_get")[1])
-    putp = translate_put(find_function(jo, "json_object_put")[1])
-    sd = translate_seed(find_function(lh, "lh_char_hash")[1])
-    return getp, putp, sd
+    """returns (parts, reasons): parts = dict get/put/seed -> (ops, shown[, var]); a part that
+    was not recognised is missing and has an entry in reasons"""
+    parts, reasons = {}, []
+    try:
+        jo = preprocess(repo, cfg, "json_object.c", defines)
+    except Unrecognised as e:
+        jo = None
+        reasons.append(str(e))
+    try:
+        lh = preprocess(repo, cfg, "linkhash.c", defines)
+    except Unrecognised as e:
+        lh = None
+        reasons.append(str(e))
+    if jo is not None:
+        try:
+            check_rc_sites(jo)
+        except Unrecognised as e:
+            reasons.append(str(e))      # a stray access: get/put are still translated
+        for key, name, fn in (("get", "json_object_get", translate_get), ("put", "json_object_put", translate_put)):
+            try:
+                parts[key] = fn(find_function(jo, name)[1])
+            except Unrecognised as e:
+                reasons.append(str(e))
+    if lh is not None:
+        try:
+            check_seed_default(lh)
+            parts["seed"] = translate_seed(find_function(lh, "lh_char_hash")[1])
+        except Unrecognised as e:
+            reasons.append(str(e))
+    return parts, reasons
 
 
 def write_if_changed(path, text):
@@ -622,35 +668,36 @@ def write_if_changed(path, text):
     return True
 
 
-def regenerate(repo, cfg, defines, out=OUT):
-    """returns (ok, summary dict)"""
-    try:
-        getp, putp, sd = translate(repo, cfg, defines)
-        text = render(getp, putp, sd, defines)
-        info = dict(ok=True, get=getp[0], put=putp[0], seed=sd[0], seed_var=sd[2])
-    except Unrecognised as e:
-        text = render_failure(str(e))
-        info = dict(ok=False, reason=str(e))
+def regenerate(repo, cfg, defines, out=OUT, out_check=OUT_CHECK):
+    """returns (ok, summary dict); both generated files are (re)written when their text changes"""
+    parts, reasons = translate(repo, cfg, defines)
+    failed = [k for k in ("get", "put", "seed") if k not in parts]
+    full = {k: parts.get(k, REFERENCE[k]) for k in ("get", "put", "seed")}
+    text = render(full["get"], full["put"], full["seed"], defines, failed)
+    ok = not reasons
+    info = dict(ok=ok, get=full["get"][0], put=full["put"][0], seed=full["seed"][0], placeholders=failed)
+    if not ok:
+        info["reason"] = "; ".join(reasons)
     info["changed"] = write_if_changed(out, text)
-    return info["ok"], info
+    info["check_changed"] = write_if_changed(out_check, render_check(reasons))
+    return ok, info
 
 
 if __name__ == "__main__":
     sys.path.insert(0, os.path.join(VERIF, "lib"))
-    repo = None
     if "--repo" in sys.argv:
-        repo = sys.argv[sys.argv.index("--repo") + 1]
-        os.environ["VERIF_REPO"] = repo
+        os.environ["VERIF_REPO"] = sys.argv[sys.argv.index("--repo") + 1]
     import fw
     defs = [f for f in fw.VARIANTS["tsan"]["flags"] if f.startswith("-D")]
     cfg = fw.ensure_cfg()
     if "--print" in sys.argv:
-        try:
-            g, p, s = translate(fw.REPO, cfg, defs)
-            print(render(g, p, s, defs))
-        except Unrecognised as e:
-            print("UNRECOGNISED: %s" % e)
-            sys.exit(1)
+        parts, reasons = translate(fw.REPO, cfg, defs)
+        failed = [k for k in ("get", "put", "seed") if k not in parts]
+        full = {k: parts.get(k, REFERENCE[k]) for k in ("get", "put", "seed")}
+        print(render(full["get"], full["put"], full["seed"], defs, failed))
+        for r in reasons:
+            print("UNRECOGNISED: %s" % r)
+        sys.exit(1 if reasons else 0)
     else:
         ok, info = regenerate(fw.REPO, cfg, defs)
         print(info)
